@@ -4,6 +4,7 @@ import Driver.C12
 import Driver.C13
 import Driver.C11
 import Driver.C10
+import Driver.C17
 
 def dispatch (line : String) : String :=
   match Driver.toks line with
@@ -12,6 +13,7 @@ def dispatch (line : String) : String :=
   | "C13" :: r => Driver.C13.handle r
   | "C11" :: r => Driver.C11.handle r
   | "C10" :: r => Driver.C10.handle r
+  | "C17" :: r => Driver.C17.handle r
   | _ => "bad-request"
 
 partial def loop (h : IO.FS.Stream) (out : IO.FS.Stream) : IO Unit := do
